@@ -18,6 +18,8 @@ fn space_for(tier: Tier) -> (Space, usize) {
             s.ast("K0", 5, 128).ast("Q", 3, 128).ast("CL", 4, 128).ast("AN", 3, 128);
             s.ast_range("LP", 1, 3, 64, 5);
             s.ast_range("ALT", 1, 4, 64, 4);
+            // back-references: membership decided by exhaustive path exploration
+            s.ast_range("G", 1, 6, 256, 3).ast_range("BR", 1, 3, 64, 3);
             (s, 3)
         }
         Tier::Thorough => {
@@ -27,6 +29,7 @@ fn space_for(tier: Tier) -> (Space, usize) {
             s.ast_range("K0", 6, 6, 256, 3);
             s.ast_range("LP", 1, 4, 64, 6);
             s.ast_range("ALT", 1, 4, 64, 4);
+            s.ast_range("G", 1, 6, 256, 4).ast_range("BR", 1, 4, 64, 4);
             (s, 4)
         }
     }
@@ -78,8 +81,13 @@ impl Check for C01 {
                     return;
                 }
             };
-            if parsed.ast.has_backref() {
-                out.inc("backref_skipped");
+            let with_backref = parsed.ast.has_backref();
+            if with_backref && parsed.ast.backref_in_disputed_position() {
+                out.inc("backref_disputed_skipped");
+                return;
+            }
+            if (scope_name.starts_with('G') || scope_name.starts_with("BR")) && !with_backref {
+                // these layers are only here for their back-reference patterns
                 return;
             }
             if restricted && parsed.ast.has_nullable_loop() {
@@ -110,7 +118,19 @@ impl Check for C01 {
                         f: fl,
                         ucd: &ctx.ucd,
                     };
-                    let want = sem.lang_is_match(&parsed.ast);
+                    let want = if with_backref {
+                        // a back-reference has no set semantics: some path of the
+                        // ordered reference must match (all paths are explored)
+                        match crate::sem::Paths::new(&inputs_c[k], fl, &ctx.ucd).exists(&parsed.ast, parsed.groups) {
+                            Ok(w) => w,
+                            Err(_) => {
+                                out.inc("ref_out_of_budget");
+                                continue;
+                            }
+                        }
+                    } else {
+                        sem.lang_is_match(&parsed.ast)
+                    };
                     if want {
                         seen_t = true
                     } else {
